@@ -58,6 +58,7 @@ type Delivery struct {
 	expV5     *model.ExpV5
 	expSF     *model.ExpSF
 	ambiguous bool
+	mismatchOnly bool
 	hostile   bool
 	wantPub   int // 0, 1, or -1 (open)
 	wantDec   int // 0, 1, or -1 (open)
@@ -288,6 +289,12 @@ func finalizePipeFrom(p *PipePlan, init model.TplCache) []model.TplCache {
 				if exp.UnknownSets > 0 {
 					d.wantDec = -1
 				}
+				if exp.Mismatched > 0 {
+					if !d.ambiguous {
+						d.mismatchOnly = true
+					}
+					d.ambiguous = true
+				}
 				if len(exp.Records) > 0 {
 					d.wantPub = 1
 					d.class = "data"
@@ -296,7 +303,9 @@ func finalizePipeFrom(p *PipePlan, init model.TplCache) []model.TplCache {
 					d.class = "no-records"
 				}
 				if d.ambiguous {
-					d.wantPub = -1
+					// decoded under whichever definition was in force: it may yield
+					// other records, none, or fail altogether
+					d.wantPub, d.wantDec = -1, -1
 				}
 			case d.V5 != nil:
 				d.payload = d.encode(nil)
@@ -769,6 +778,9 @@ func fillRunOut(out *RunOut, p *PipePlan, obs *PipeObs) {
 	out.Faults["pool-reuse"] += obs.Pool.Reused
 	out.Probes["pool-double-put-seen"] += obs.Pool.DoublePut
 	for _, d := range p.Dels {
+		if d.mismatchOnly {
+			out.Probes["model-mismatch-without-reannouncement-in-phase"]++
+		}
 		for _, m := range d.Mut {
 			out.Faults["net-"+m.Kind]++
 		}
